@@ -424,7 +424,7 @@ theorem inv_init (w : World) (a : Arch) (hw : Inv w) : Inv (w.init a).1 := by
   simp only [World.init]
   split
   · exact hw
-  · exact ⟨hw.ac, hw.dc, hw.fm, fun h => by simp at h⟩
+  · exact ⟨hw.ac, hw.dc, hw.fm, fun h => by simp [Holder.alloc] at h⟩
 
 theorem detached_clean (e : Emitter) : Clean e.onDetach := by
   cases e with | mk k _ _ _ _ _ _ _ _ _ _ _ _ _ _ _ _ _ _ _ _ _ _ => cases k <;> simp [Clean, Emitter.onDetach, Emitter.obs]
@@ -468,7 +468,7 @@ theorem inv_reinit (w : World) (hw : Inv w) : Inv w.reinit.1 := by
   · exact hw
   · have hproj := applyAll_map_proj proj Emitter.onReinit (fun e => by cases e with | mk k _ _ _ _ _ _ _ _ _ _ _ _ _ _ _ _ _ _ _ _ _ _ => cases k <;> rfl) w.h.attached w.es
     have hcode := applyAll_map_proj Emitter.code Emitter.onReinit (fun e => by cases e with | mk k _ _ _ _ _ _ _ _ _ _ _ _ _ _ _ _ _ _ _ _ _ _ => cases k <;> rfl) w.h.attached w.es
-    refine ⟨?_, ?_, ?_, fun h => by simp [Holder.resetContainers] at h; rename_i hi; simp [h] at hi⟩
+    refine ⟨?_, ?_, ?_, fun h => by simp [Holder.resetContainers, Holder.alloc] at h; rename_i hi; simp [h] at hi⟩
     · intro j x hx hc
       show j ∈ w.h.attached
       simp only [reinitAll] at hx
@@ -643,7 +643,7 @@ theorem inv_step (w : World) (op : Op) (hw : Inv w) (hop : op.wfAt w) : Inv (w.s
       · rw [if_pos hc]; exact inv_frame_attached w _ i e hw hi hc (genAttached_frame w i e o hi)
       · rw [if_neg hc]; exact hw
   cases op
-  case world f => exact inv_fresh f
+  case world f st => exact inv_of_sim (freshOf f) _ (by cases f <;> rfl) (inv_fresh f)
   case init a => exact inv_init w a hw
   case reset hard => exact inv_reset w hard hw
   case reinit => exact inv_reinit w hw
